@@ -8,6 +8,8 @@
 -/
 import Gzx.Proofs.QRSegments
 import Gzx.Proofs.QRInterleave
+import Gzx.Proofs.QRTolerance
+import Gzx.Proofs.QRMatrixRead
 namespace Gzx.Properties.C01
 open Gzx Gzx.QRDec Gzx.QRPack Gzx.ECI
 
@@ -163,6 +165,37 @@ theorem unmask_dim (k : Nat) (m : Matrix) : (unmask k m).dim = m.dim := rfl
 
 /-- mirroring (transposition) twice restores the matrix -/
 theorem mirror_involutive (m : Matrix) (x y : Nat) : (mirrorMatrix (mirrorMatrix m)).bit x y = m.bit x y := rfl
+
+/-! ## format and version information: read-back -/
+
+/-- `format_info_inv`: read-back of both copies on the exact-match path — if the modules of both
+    format areas hold the 15-bit word `w` of lookup entry `(w, d)` (what the encoder embeds: QRRef),
+    `ReadFormatInformation` returns and caches the level and mask of `d`. -/
+theorem format_info_inv (T : Tables) (hT : MinDist 7 (T.fmt.map (·.1))) (p : Parser) (hc : p.fmt = none)
+    (w d : Nat) (hw : (w, d) ∈ T.fmt) (hlt : w < 2 ^ 15) (f : EC × Nat) (hf : formatInfoOf d = .ok f)
+    (c₁ : formatCoords1.map (cellOf p.m p.mirror) = natToBits 15 w)
+    (c₂ : (formatCoords2 p.m.dim).map (cellOf p.m p.mirror) = natToBits 15 w) :
+    readFormatInformation T p = .ok (f, { p with fmt := some f }) := by
+  have h := decodeFormat_near T.fmt T.fmtMask hT w d hw 0 0 (by decide) (by decide)
+  simp only [Nat.xor_zero] at h
+  rw [readFormat_reads T p hc w w hlt hlt c₁ c₂, h, hf]
+  rfl
+
+/-- `version_info_inv`: versions 1..6 are read off the dimension; for versions ≥ 7 the first copy
+    holding the 18-bit word of version `i+7` yields that version (dimension check included). -/
+theorem version_info_inv_small (T : Tables) (p : Parser) (hc : p.ver = none) (hsmall : (p.m.dim - 17) / 4 ≤ 6)
+    (v : VersionInfo) (hv : getVersionForNumber T.versions ((p.m.dim - 17) / 4) = .ok v) :
+    readVersion T p = .ok (v, p) :=
+  readVersion_small T p hc hsmall v hv
+
+theorem version_info_inv (T : Tables) (hT : MinDist 8 T.vdi) (p : Parser) (hc : p.ver = none)
+    (hbig : ¬ (p.m.dim - 17) / 4 ≤ 6) (i w : Nat) (hw : T.vdi[i]? = some w) (hlt : w < 2 ^ 18)
+    (v : VersionInfo) (hv : getVersionForNumber T.versions (i + 7) = .ok v) (hd : v.dimension = p.m.dim)
+    (c₁ : (versionCoords1 p.m.dim).map (cellOf p.m p.mirror) = natToBits 18 w) :
+    readVersion T p = .ok (v, { p with ver := some v }) := by
+  have h := versionCopyOK_near T hT i w hw 0 (by decide) v hv p.m.dim hd
+  simp only [Nat.xor_zero] at h
+  exact readVersion_reads_first T p hc hbig w hlt c₁ v h
 
 /-! ## whole bit streams: one segment, terminator, padding -/
 
